@@ -3,7 +3,7 @@
 # copy of /verif/sim with path deps rewritten), so /repo stays untouched while work continues.
 # usage: lab_matrix.sh <results-file> <ID/variant:prop[,prop...]> ...
 set -u
-LAB=/tmp/mlab
+LAB=${LAB:-/tmp/mlab}
 RES="$1"; shift
 mkdir -p $LAB/verif
 if [ ! -d $LAB/repo ]; then git -C /repo worktree add -q --detach $LAB/repo HEAD || exit 2; fi
